@@ -222,6 +222,15 @@ def composition_error(calls, T, roots, n):
 
 def check_aggop(AggOp, roots, n, name):
     """common contract: 0/1 matrix, <= 1 aggregate per node, no empty aggregate, distinct roots inside"""
+    if sp.issparse(AggOp) and AggOp.format in ('csr', 'bsr', 'csc'):
+        idx, ptr = np.asarray(AggOp.indices), np.asarray(AggOp.indptr)
+        minor = AggOp.shape[1] if AggOp.format != 'csc' else AggOp.shape[0]
+        if AggOp.format == 'bsr':
+            minor //= AggOp.blocksize[1]
+        if len(ptr) == 0 or ptr[0] != 0 or (np.diff(ptr) < 0).any() or ptr[-1] > len(idx) or \
+                (len(idx) and (idx[:ptr[-1]].min() < 0 or idx[:ptr[-1]].max() >= minor)):
+            bad = [int(v) for v in idx[:ptr[-1]] if v < 0 or v >= minor][:3]
+            return f'AggOp has invalid index arrays (aggregate ids {bad} outside 0..{minor - 1})'
     A = sp.csr_array(AggOp)
     if A.shape[0] != n:
         return f'AggOp has {A.shape[0]} rows for {n} nodes'
@@ -344,7 +353,9 @@ def part_b(ctx, graphs):
             W = W + W.T
             C = _csr(W)
             ratio = float(rng.choice([0.1, 0.3, 0.6]))
-            measure = str(rng.choice(['unit', 'abs', 'inv']))
+            measure = [None, 'unit', 'abs', 'inv', 'min'][int(rng.integers(5))]
+            if t % 9 == 0 and C.nnz and measure in (None, 'abs', 'min'):
+                C.data[rng.integers(C.nnz)] = 0.0       # an explicitly stored zero-length edge
             maxiter = int(rng.integers(1, 5))
             for nm, fn, kw in (('lloyd', AG.lloyd_aggregation, {'ratio': ratio, 'measure': measure, 'maxiter': maxiter}),
                                ('balanced_lloyd', AG.balanced_lloyd_aggregation, {'ratio': ratio, 'measure': measure, 'maxiter': maxiter})):
@@ -371,7 +382,7 @@ def part_b(ctx, graphs):
                     if e:
                         viol(f'{nm}_aggregation({kw}): {e}', routine=nm, W=W.tolist(), **kw)
                 except ValueError as ex:
-                    if nm == 'balanced_lloyd' and ('disconnected' in str(ex) or 'maxsize' in str(ex)):
+                    if nm == 'balanced_lloyd' and ('disconnected' in str(ex) or 'maxsize' in str(ex) or 'positive weights' in str(ex)):
                         ctx.feat('balanced_lloyd_rejects_input')   # explicit ValueError refusal (disconnected graph / maxsize too small), not a wrong partition
                     else:
                         viol(f'{nm}_aggregation({kw}) raised {type(ex).__name__}: {ex}', routine=nm, W=W.tolist(), **kw)
